@@ -5,6 +5,7 @@ CONSTANTS
   Froms = {"Contact"}
   ExtSets = {"default", "all"}
   IdKinds = {"fresh", "dup"}
+  Peers = {}
   MaxHist = 3
 CONSTRAINT Bound
 ACTION_CONSTRAINT EmitBehaviour
